@@ -370,7 +370,7 @@ theorem emitExits_keeps (orc : Oracle) : ∀ (l : S) (m : Mach) (t : Tx),
           simp only [Bool.and_eq_true] at hauto; exact hauto.1
         split
         · exact (k1.trans (Keeps.setTarget _ ha)).trans (ih _ _)
-        · exact k1.trans Keeps.crash
+        · exact k1
       · exact k1
 
 theorem emitEnters_keeps (orc : Oracle) : ∀ (l : S) (m : Mach) (t : Tx),
